@@ -217,6 +217,14 @@ class SimThread(_RealThread):
         self._sim = _CURRENT_SIM
         self._actor = None
         self._sim_proc = None
+        # Thread.start() waits on self._started for the new OS thread to come up.  That Event was just built
+        # on threading.Lock, i.e. on a SimLock: when the parent's wait() collides with the child's set() (a
+        # matter of real timing) the parent would *yield the baton* inside start().  The handshake belongs to
+        # the interpreter, not to the simulated program: give it real locks.
+        ev = threading.Event.__new__(threading.Event)
+        ev._cond = threading.Condition(_real_allocate_lock())
+        ev._flag = False
+        self._started = ev
 
     def start(self):
         sim = self._sim
